@@ -30,13 +30,16 @@ def histories(strict=False, guaranteed_bias=False, max_ticks=40):
         "flavour": st.sampled_from(["udp", "twisted"]),
         "mtu": st.sampled_from(MTUS),
         "strict": st.just(strict),
-        "link": scen.link_specs(max_loss=0.3, max_outage=1.5, horizon=2.5, max_delay=0.05),
+        "link": scen.link_specs(max_loss=0.3, max_outage=1.5, horizon=4.0, max_delay=0.05),
         "rtt_extra": st.sampled_from([0.0, 0.0, 0.0, 0.08, 0.2, 0.4]),    # extra one-way delay: round trips beyond the resend interval
         "ticks": st.lists(st.lists(ops, min_size=0, max_size=2 if strict else 3), min_size=1, max_size=max_ticks),
         "replays": st.lists(st.tuples(st.integers(0, 80), st.sampled_from(["client", "server"]), st.floats(0, 1)).map(list), max_size=4),
         # forged clear datagrams (valid CRC, every packet type) whose ack fields name the target's pending datagrams
         "forged": st.lists(st.tuples(st.integers(0, 60), st.sampled_from(["client", "server"]), st.integers(0, 7), st.sampled_from([0, 1, 2])).map(list), max_size=3),
         "dt": st.sampled_from([0.017, 0.02]),
+        # the faulty link stays armed this long after the last send, so that retransmissions (one message timeout later)
+        # and their retransmissions meet the faults too
+        "adv_extra": st.sampled_from([0.0, 0.5, 1.3, 2.5, 3.5]),
     })
 
 
@@ -181,6 +184,12 @@ def run(ctx, c, oracle, per_step=None, link_setup=None, payload_fn=None):
                     else:
                         w.net.push(w.clock.t + 0.0005, ch.laddr, w.server_addr, d)
                     f.forged = getattr(f, "forged", 0) + 1
+        if not c["strict"]:
+            for _ in range(int(c.get("adv_extra", 0.0) / c["dt"])):
+                step()
+        else:
+            for _ in range(int(min(c.get("adv_extra", 0.0), 1.3) / c["dt"])):
+                step()
         f.t_heal = w.clock.t
         link.healed()
         # heal phase: until every retransmittable / callback-carrying send is resolved, or the cap
